@@ -260,6 +260,24 @@ class C17(Check):
                         if bad:
                             acc.violation(f'{bad[0]}:after-another-object-was-configured@{base}', {'kind': 'facade', 'base': base, 'order': 0, 'setting': attr}, bad[1])
                             break
+                if base == desc[1][0] or base == desc[1][-1]:
+                    # the embedding application's logging configuration is not an option of the tool: root logger at DEBUG
+                    import logging
+                    root = logging.getLogger()
+                    saved_level, saved_disable = root.level, logging.root.manager.disable
+                    handler = logging.NullHandler()
+                    root.addHandler(handler)
+                    try:
+                        root.setLevel(logging.DEBUG)
+                        logging.disable(logging.NOTSET)
+                        bad = judge_facade_twins(base, 0)
+                    finally:
+                        root.setLevel(saved_level)
+                        logging.disable(saved_disable)
+                        root.removeHandler(handler)
+                    acc.case(nontrivial=True, transitions=8, outcome=h64(('logging', base)))
+                    if bad:
+                        acc.violation(f'{bad[0]}:root-logger-at-DEBUG@{base}', {'kind': 'facade-logging', 'base': base}, bad[1])
                 for order in (0, 1):
                     bad = judge_facade_twins(base, order)
                     acc.case(nontrivial=True, transitions=8, outcome=h64((base, order)))
@@ -284,6 +302,16 @@ class C17(Check):
                                 acc.sample({'twin': base, 'start': [hex(x) for x in s]})
 
     def replay(self, case):
+        if case['kind'] == 'facade-logging':
+            import logging
+            root = logging.getLogger()
+            saved = root.level
+            try:
+                root.setLevel(logging.DEBUG)
+                bad = judge_facade_twins(case['base'], 0)
+            finally:
+                root.setLevel(saved)
+            return [(f"{bad[0]}:root-logger-at-DEBUG@{case['base']}", bad[1])] if bad else []
         if case['kind'] == 'after-failure':
             bad = judge_twin_after_failure(case['base'], case['fail_on'])
             return [(f"{bad[0]}@{case['base']}", bad[1])] if bad and bad != 'skipped' else []
